@@ -140,6 +140,14 @@ theorem spansFrom_shift (o d : Nat) (ls : List Bytes) :
     simp only [spansFrom, List.map_cons]
     rw [show o + d + l.length = (o + l.length) + d by omega, ih]
 
+theorem spansFrom_append (o : Nat) (a b : List Bytes) :
+    spansFrom o (a ++ b) = spansFrom o a ++ spansFrom (o + a.flatten.length) b := by
+  induction a generalizing o with
+  | nil => simp [spansFrom]
+  | cons x xs ih =>
+    simp only [List.cons_append, spansFrom, List.flatten_cons, List.length_append]
+    rw [ih, Nat.add_assoc]
+
 /-- the loop of `before_context_by_line` on both sides, over the lines `ls` starting at `o`; the gap
 test of the first line is the caller's business, afterwards the two sides are tight -/
 theorem beforeLoop_sim {cfg : Config} {B pre w post : Bytes} (W : WinOf B pre w post) (hbin : cfg.binary = .none)
